@@ -448,9 +448,10 @@ Fixpoint find_attr (attrs : list xattr) (n : string) : option xattr :=
 
 Definition has_children (d : xdie) : bool := match x_kids d with Some b => b | None => false end.
 
-Definition is_unit_ref_form (f : ename) : bool :=
-  is_name f "DW_FORM_ref1" || is_name f "DW_FORM_ref2" || is_name f "DW_FORM_ref4" ||
-  is_name f "DW_FORM_ref8" || is_name f "DW_FORM_ref" || is_name f "DW_FORM_ref_udata".
+(* `form in ('DW_FORM_ref1', ..., 'DW_FORM_ref_udata')`: the tuple written in DIE.get_DIE_from_attribute,
+   CompileUnit.iter_DIE_children and TypeUnit.iter_DIE_children (three copies, extracted from the source by the
+   generator; Proofs/C04Forms.v shows they are the same tuple) *)
+Definition is_unit_ref_form (f : ename) : bool := existsb (is_name f) gen_die_ref_unit_forms.
 
 (* CompileUnit.iter_DIE_children / TypeUnit.iter_DIE_children: the while loop.
    Returns the yielded children and the terminator that gets stored in die._terminator. *)
@@ -699,12 +700,9 @@ Definition get_base_offset (top_attrs : list xattr) (name : string) : res Z :=
               end
   end.
 
-Definition is_addrx (f : ename) : bool :=
-  is_name f "DW_FORM_addrx" || is_name f "DW_FORM_addrx1" || is_name f "DW_FORM_addrx2" ||
-  is_name f "DW_FORM_addrx3" || is_name f "DW_FORM_addrx4".
-Definition is_strx (f : ename) : bool :=
-  is_name f "DW_FORM_strx" || is_name f "DW_FORM_strx1" || is_name f "DW_FORM_strx2" ||
-  is_name f "DW_FORM_strx3" || is_name f "DW_FORM_strx4".
+(* `form in ('DW_FORM_addrx', ...)` / `form in ('DW_FORM_strx', ...)`: the tuples written in _translate_attr_value *)
+Definition is_addrx (f : ename) : bool := existsb (is_name f) gen_translate_addrx_forms.
+Definition is_strx (f : ename) : bool := existsb (is_name f) gen_translate_strx_forms.
 
 Definition offset_size (is64 : bool) : nat := if is64 then 8%nat else 4%nat.
 
